@@ -239,7 +239,7 @@ def clone_bound_tie(tie, rng, n):
 
 def main(tier):
     t0 = time.time()
-    proof = common.proof_obligations("C20", modules=["EduceModel.Props.C20", "EduceModel.Props.E2E", "EduceModel.Props.ListParse"])
+    proof = common.proof_obligations("C20", modules=["EduceModel.Props.C20", "EduceModel.Props.E2E", "EduceModel.Props.Profile", "EduceModel.Props.ListParse"])
     n_defs = 150 if tier == "quick" else 2000
     tie = b1.run_b1("C20", P(), n_defs, 1, common.seed())
     # Default on unions (the clause "Default initialises exactly the designated field with its expression or the field type's
